@@ -70,6 +70,7 @@ CANARIES = {
         ("reference-flag-parenthesis-misplaced", "stix2/properties.py", "text", ["        has_custom = not is_object(obj_type, self.spec_version) \\\n            or obj_type.startswith(\"x-\")", "        has_custom = not (is_object(obj_type, self.spec_version)\n                          or obj_type.startswith(\"x-\"))"], "C04.flag-back"),
     ],
     "C05": [
+        ('moved-modified-under-the-negated-test', 'stix2/versioning.py', 'text', ['        if "modified" in kwargs["custom_properties"]:', '        if "modified" not in kwargs["custom_properties"]:'], 'C05.pipeline'),
         ('change-names-filtered', 'stix2/versioning.py', 'text', ['        changed_properties.update(kwargs["custom_properties"])', '        changed_properties.update(p for p in kwargs["custom_properties"] if p not in getattr(type(data), "_properties", ()))'], 'C05.unmodifiable'),
         ('option-key-for-dictionaries-too', 'stix2/versioning.py', 'text', ['    if isinstance(data, stix2.base._STIXBase):\n        if allow_custom is None:', '    if True:\n        if allow_custom is None:'], 'C05.pipeline'),
         ("fudge-not-strict", "stix2/versioning.py", "flip-compare", ["_fudge_modified", "LtE -> Lt"], "C05.granularity"),
@@ -94,6 +95,7 @@ CANARIES = {
         ("collision-test-case-folded", "stix2/properties.py", "text", ["            if spec_name in spec_dict and spec_dict[spec_name] != hash_v:", "            if spec_name in spec_dict and spec_dict[spec_name].lower() != hash_v.lower():"], "C06.order-free-cleaning"),
     ],
     "C07": [
+        ('object-level-add-lists-duplicates', 'stix2/markings/object_markings.py', 'text', ["    object_markings = set(obj.get('object_marking_refs', []) + marking)", "    object_markings = obj.get('object_marking_refs', []) + marking"], 'C07.normal-form'),
         ('option-rebound-in-loop', 'stix2/markings/granular_markings.py', 'text', ["                    lng = marking.get('lang')\n", "                    lang = marking.get('lang') if lang else None\n                    lng = lang\n"], 'C07.loops-complete'),
         ('option-key-for-dictionaries-too', 'stix2/versioning.py', 'text', ['    if isinstance(data, stix2.base._STIXBase):\n        if allow_custom is None:', '    if True:\n        if allow_custom is None:'], 'C07.new-version'),
         ('lang-option-clears-references', 'stix2/markings/granular_markings.py', 'text', ["                if ref and marking_ref:\n                    granular_marking['marking_ref'] = ''", "                if ref and marking_ref or lang:\n                    granular_marking['marking_ref'] = ''"], 'C07.query-siblings'),
@@ -128,6 +130,7 @@ CANARIES = {
         ("followedby-absorbs-and", "stix2/equivalence/pattern/transform/observation.py", "text", ["                    elif type(child1) is type(child2):", "                    elif isinstance(child1, _CompoundObservationExpression):"], "C09.absorption"),
     ],
     "C10": [
+        ('quoted-step-groups-swapped', 'stix2/patterns.py', 'text', ['return ListObjectPathComponent(name, m.group(2))', 'return ListObjectPathComponent(m.group(2), name)'], 'C10.path-text'),
         ('and-group-dropped', 'stix2/pattern_visitor.py', 'text', ['            return self.instantiate("ParentheticalExpression", children[1])\n        else:', '            return children[1]\n        else:'], 'C10.operator-table'),
         ('set-literal-loses-members', 'stix2/patterns.py', 'text', ['        self.value = [x if isinstance(x, _Constant) else make_constant(x) for x in values]', '        self.value = [x if isinstance(x, _Constant) else make_constant(x) for x in values if x is not None]'], 'C10.operator-table'),
         ('quoted-step-escaped-twice', 'stix2/pattern_visitor.py', 'text', ['current.property_name if isinstance(current, BasicObjectPathComponent) else str(current),', 'current.property_name if isinstance(current, BasicObjectPathComponent) else "\'%s\'" % escape_quotes_and_backslashes(current.value),'], 'C10.path-step-kinds'),
@@ -201,6 +204,7 @@ CANARIES = {
         ("timestamp-text-rewritten-before-parsing", "stix2/properties.py", "text", ["    def clean(self, value, allow_custom=False):\n        return parse_into_datetime(\n            value, self.precision, self.precision_constraint,", "    def clean(self, value, allow_custom=False):\n        if isinstance(value, str):\n            value = value.replace(':60', ':59')\n        return parse_into_datetime(\n            value, self.precision, self.precision_constraint,"], "C15.property-forward"),
     ],
     "C16": [
+        ('exponent-of-a-one-digit-mantissa-kept', 'stix2/canonicalization/NumberToJson.py', 'text', ["    q = pyDouble.find('e')\n    if q > 0:", "    q = pyDouble.find('e')\n    if q > 1:"], 'C16.number-constants'),
         ("window-off-by-one", "stix2/canonicalization/NumberToJson.py", "int+1", ["21 -> 22"], "C16.number-constants"),
         ("escape-entry-lost", "stix2/canonicalization/Canonicalize.py", "drop-dict-entry", ["drop entry '\\t'"], "C16.escapes"),
     ],
@@ -238,6 +242,7 @@ CANARIES = {
         ("registry-indexed-by-the-content-version", "stix2/registry.py", "text", ["    cat_map = STIX2_OBJ_MAPS.get(stix_version)\n", "    cat_map = STIX2_OBJ_MAPS[stix_version]\n"], "C17.raw-deref"),
     ],
     "C18": [
+        ('self-relationship-answered-twice', 'stix2/datastore/__init__.py', 'text', ["target_filters.append(Filter('source_ref', '!=', obj_id))", "target_filters.append(Filter('source_ref', '!=', False))"], 'C18.navigation'),
         ('ids-skipped-by-type-prefix', 'stix2/datastore/__init__.py', 'text', ["            results.extend(self.query([f for f in filter_list] + [Filter('id', '=', i)]))", "            if i.startswith('x-'):\n                continue\n            results.extend(self.query([f for f in filter_list] + [Filter('id', '=', i)]))"], 'C18.navigation'),
         ('newest-by-text', 'stix2/datastore/__init__.py', 'text', ['            ver = obj.get("modified") or obj.get("created")\n\n            if stix_obj is None or ver is None or ver > latest_ver:', '            ver = str(obj.get("modified") or obj.get("created"))\n\n            if stix_obj is None or ver is None or ver > latest_ver:'], 'C18.newest'),
         ("own-filters-not-forwarded", "stix2/datastore/__init__.py", "delete-call-stmt", ["CompositeDataSource.query", "all_filters.add(self.filters)"], "C18.member-forward"),
